@@ -381,8 +381,10 @@ def check_part(ctx, exp, sn, d, part):
     want_staff = sn if staff_encoded else None
     for i, e in enumerate(exp_events):
         g = matched[i]
-        if staff_encoded and g["staff"] != want_staff:
-            V(f"{fmt}-staff-wrong:{e['kind']}", f"{e['kind']} {e['id']} of staff {want_staff} loaded with staff {g['staff']}",
+        e_staff = e.get("staff", want_staff) if fmt == "mei" else want_staff      # (MEI: a note may carry its own @staff)
+        if staff_encoded and g["staff"] != e_staff:
+            V(f"{fmt}-staff-wrong:{e['kind']}" + (":cross-staff" if e_staff != want_staff or g["staff"] != want_staff else ""),
+              f"{e['kind']} {e['id']} of staff {e_staff} (layer on staff {want_staff}) loaded with staff {g['staff']}",
               expected=brief(e), got=brief(g))
             break
     if fmt == "mei":
